@@ -293,3 +293,101 @@ Definition env_delta (d : Z) (x : op * out) : Z :=
   | (EnvSupply d' delta, _) => if d' =? d then delta else 0
   | _ => 0
   end.
+
+(* ---------------------------------------------------------------- contract call trees *)
+
+(* One transaction whose contract code makes SEVERAL ERC-20 calls from nested call frames, some of which fail
+   (REVERT / INVALID / out of gas).  A leaf is one call frame into a precompile (evm_call: its own snapshot / revert);
+   a node is a contract frame: its children run in order on the state the previous one left, and when the frame
+   does not complete ([keep] = false) go-ethereum's RevertToSnapshot puts every module's store back to what it was
+   when the frame was entered (x/evm/vm/state_db.go) and the logs emitted below it are dropped.
+   Returned: state, logs kept, success mask (bit i = the i-th leaf in program order succeeded and no frame around it
+   failed: what the driver's interpreter contract returns), index of the next leaf. *)
+Inductive ftree :=
+| FLeaf (caller tok : Z) (c : call)
+| FNode (keep : bool) (kids : list ftree).
+
+Fixpoint exec_tree (e : env) (t : ftree) (s : state) (i : Z) : state * list log * Z * Z :=
+  match t with
+  | FLeaf caller tok c =>
+      match evm_call e s caller tok c with
+      | (s', OOk _ lg) => (s', lg, 2 ^ i, i + 1)
+      | (s', _) => (s', [], 0, i + 1)
+      end
+  | FNode keep kids =>
+      let '(s', lg, m, i') :=
+        (fix go (l : list ftree) (s : state) (i : Z) : state * list log * Z * Z :=
+           match l with
+           | [] => (s, [], 0, i)
+           | k :: r =>
+               let '(s1, l1, m1, i1) := exec_tree e k s i in
+               let '(s2, l2, m2, i2) := go r s1 i1 in
+               (s2, l1 ++ l2, m1 + m2, i2)
+           end) kids s i in
+      if keep then (s', lg, m, i') else (s, [], 0, i')
+  end.
+
+(* the children loop of a frame, named (convertible with the inner fix of exec_tree) *)
+Definition exec_kids (e : env) : list ftree -> state -> Z -> state * list log * Z * Z :=
+  fix go (l : list ftree) (s : state) (i : Z) : state * list log * Z * Z :=
+    match l with
+    | [] => (s, [], 0, i)
+    | k :: r =>
+        let '(s1, l1, m1, i1) := exec_tree e k s i in
+        let '(s2, l2, m2, i2) := go r s1 i1 in
+        (s2, l1 ++ l2, m1 + m2, i2)
+    end.
+
+(* the calls whose frame and all frames around it completed, in program order *)
+Fixpoint survivors (t : ftree) : list op :=
+  match t with
+  | FLeaf caller tok c => [Call caller tok c]
+  | FNode keep kids =>
+      if keep then
+        (fix go (l : list ftree) : list op := match l with [] => [] | k :: r => survivors k ++ go r end) kids
+      else []
+  end.
+
+Definition survivors_kids : list ftree -> list op :=
+  fix go (l : list ftree) : list op := match l with [] => [] | k :: r => survivors k ++ go r end.
+
+(* the transaction ends with a VM error when its top frame fails *)
+Definition tree_keep (t : ftree) : bool := match t with FNode false _ => false | _ => true end.
+
+(* histories whose steps are plain operations or such transactions *)
+Inductive xop :=
+| XOp (o : op)
+| XTx (t : ftree).
+
+Definition xstep (e : env) (s : state) (x : xop) : xres :=
+  match x with
+  | XOp o => step e s o
+  | XTx t =>
+      let '(s', lg, m, _) := exec_tree e t s 0 in
+      if tree_keep t then (s', OOk (RUint m) lg) else (s', OErr)
+  end.
+
+Fixpoint xrun (e : env) (s : state) (xs : list xop) : state * list (xop * out) :=
+  match xs with
+  | [] => (s, [])
+  | x :: r =>
+      let '(s1, o) := xstep e s x in
+      let '(s2, t) := xrun e s1 r in
+      (s2, (x, o) :: t)
+  end.
+
+(* the plain history a history with contract transactions amounts to *)
+Fixpoint flatten (xs : list xop) : list op :=
+  match xs with
+  | [] => []
+  | XOp o :: r => o :: flatten r
+  | XTx t :: r => survivors t ++ flatten r
+  end.
+
+(* logs of the successful operations of a trace, in order *)
+Fixpoint ok_logs (tr : list (op * out)) : list log :=
+  match tr with
+  | [] => []
+  | (_, OOk _ lg) :: r => lg ++ ok_logs r
+  | _ :: r => ok_logs r
+  end.
